@@ -7,5 +7,5 @@ def run(rep, tier, seed, replay):
                        "self-consistency (Dec(Enc(x)) = x for every alternative) asserted by TLC on every emitted value",
                        "generated messages only (hash maps, no groups: proto2 groups are an explicit todo!() of the lowering); the "
                        "runtime-only kinds (group codec, btree maps, packed encode, wrapper types) are not reached by this corpus",
-                       "feature pb-encode-default-value off (the default build)"]
+                       "both configurations of pilota are executed: default features, and pb-encode-default-value (a second worker build, target/pbdefault)"]
     return pbcheck.run_property(rep, "C05", tier, seed, "model_checking")
